@@ -58,7 +58,11 @@ class References:
       orient = "+"
       if self._gfa.segment(from_segment.line) and self._gfa.segment(to_segment.line):
         l = self._gfa._search_link(from_segment, to_segment, cigar)
-        if l is not None and l.is_compatible_complement(from_segment, to_segment, cigar):
+        if l is not None and l.is_compatible_complement(from_segment, to_segment, cigar) \
+            and not (l.virtual and
+                     l.is_compatible_direct(from_segment, to_segment, cigar)):
+          # a placeholder link which this step matches directly (a hairpin
+          # matches in both ways) was created by an identical step: same flag
           orient = "-"
         if l is not None and l.virtual and \
             gfapy.is_placeholder(l.overlap) and not gfapy.is_placeholder(cigar):
